@@ -8,10 +8,45 @@ import (
 	"compress/flate"
 	"fmt"
 	"strings"
+
+	"github.com/gabriel-vasile/mimetype/internal/magic"
 )
 
 func vfExecMore6(f []string, op string) (string, bool) {
 	switch f[0] {
+	case "ziplayout": // ziplayout hex : split the archive into its local entries (layout of Spec/Zip.lean) + verdicts
+		data := vfUnhex(f[1])
+		zr, err := vzip.NewReader(bytes.NewReader(data), int64(len(data)))
+		if err != nil {
+			return op + " => !", true
+		}
+		le16 := func(o int) int { return int(data[o]) | int(data[o+1])<<8 }
+		off := 0
+		var ents []string
+		for _, zf := range zr.File {
+			if off+30 > len(data) || !bytes.HasPrefix(data[off:], []byte("PK\x03\x04")) {
+				return op + " => !", true
+			}
+			nl, xl := le16(off+26), le16(off+28)
+			ds := off + 30 + nl + xl
+			de := ds + int(zf.CompressedSize64)
+			dl := 0
+			if zf.Flags&8 != 0 {
+				dl = 16 // archive/zip writes signature + crc + two 32-bit sizes
+			}
+			if de+dl > len(data) {
+				return op + " => !", true
+			}
+			ents = append(ents, vfHex(data[off+4:off+30])+"|"+vfHex(data[off+30:off+30+nl])+"|"+vfHex(data[off+30+nl:ds])+"|"+vfHex(data[ds:de])+"|"+vfHex(data[de:de+dl]))
+			off = de + dl
+		}
+		in, _ := vfExact(data)
+		v := vfSafeDet(magic.Docx, in, 0)[:1] + vfSafeDet(magic.Xlsx, in, 0)[:1] + vfSafeDet(magic.Pptx, in, 0)[:1] + vfSafeDet(magic.Jar, in, 0)[:1]
+		es := "~"
+		if len(ents) > 0 {
+			es = strings.Join(ents, ";")
+		}
+		return fmt.Sprintf("%s => %s %s %s", op, v, es, vfHex(data[off:])), true
 	case "zip": // zip hex   (limit 0)
 		data := vfUnhex(f[1])
 		SetLimit(0)
@@ -128,10 +163,26 @@ func (g *vfGen) genC19() {
 	mk := func(name string) vfEntry {
 		return vfEntry{name: name, body: g.body(30 + g.intn(200)), stored: g.intn(3) == 0, nodesc: g.intn(4) == 0}
 	}
+	// inputs that start with PK but not with a local header (empty archive, spanned marker, central directory):
+	// run before and between the archives, so that anything they leave behind shows in later answers
+	pkOther := [][]byte{
+		append([]byte("PK\x05\x06"), make([]byte, 18)...), append([]byte("PK\x07\x08"), g.bytes(40)...), append([]byte("PK\x01\x02"), g.bytes(60)...),
+		[]byte("PK\x05\x06"), []byte("PK\x03"), []byte("PK"), append([]byte("PK\x30\x30PK\x03\x04"), make([]byte, 40)...),
+	}
+	count := 0
 	emit := func(es []vfEntry) {
+		if count%40 == 0 {
+			for _, b := range pkOther {
+				g.emit(vfOp("walk", b, 0))
+			}
+		}
+		count++
 		z := vfZip(es)
 		g.emit(vfOp("walk", z, 0))
 		g.emit(vfOp("zip", z))
+		if len(z) <= 6000 {
+			g.emit(vfOp("ziplayout", z))
+		}
 	}
 	// directed: a short entry (26..44 bytes between the end of its header and the next signature,
 	// the lower bound of the statement) at position 2..5, directly followed by the only marker
@@ -169,6 +220,20 @@ func (g *vfGen) genC19() {
 				emit(es2)
 			}
 		}
+	}
+	// directed: a large entry (more than 64 KiB stored or deflated) among the first six, in front of the marker
+	for _, sz := range []int{65500, 65537, 70000, 140000} {
+		for pos := 1; pos <= 4; pos++ {
+			fam := []string{"docx", "xlsx", "pptx"}[(sz+pos)%3]
+			es := []vfEntry{mk("[Content_Types].xml")}
+			for len(es) < pos {
+				es = append(es, mk(book[g.intn(len(book))]))
+			}
+			es = append(es, vfEntry{name: "docProps/thumbnail.jpeg", body: g.body(sz), stored: pos%2 == 0, nodesc: pos%3 == 0})
+			es = append(es, mk(markers[fam][0]), mk(other[g.intn(len(other))]))
+			emit(es)
+		}
+		emit([]vfEntry{mk("META-INF/MANIFEST.MF"), {name: "assets/big.bin", body: g.body(sz), stored: true, nodesc: true}, mk("classes.dex")})
 	}
 	// directed: few entries, no marker name, but marker text at every offset residue in a stored body
 	for _, txt := range []string{"word/x", "xl/y", "ppt/zz", "META-INF/MANIFEST.MFq", "classes.dexq"} {
